@@ -173,8 +173,27 @@ def spawned_tasks():
                 tasks.append(ctx.spawn(say, "fourth"))
             late.set()
         await asyncio.gather(*tasks, return_exceptions=True)
+    async def through_helpers():
+        # the helper decorators run the function in tasks of their own (timeout) or share one invocation (cache): a line logged
+        # by the function goes to the scope of *this* call's caller, on every call
+        from haiway import timeout, retry
+
+        @timeout(5)
+        async def timed(tag):
+            ctx.log_info("line %s", tag)
+
+        @retry(limit=1)
+        async def retried(tag):
+            ctx.log_info("line %s", tag)
+        for n in ("one", "two", "three"):
+            async with ctx.scope(f"call-{n}", logger=logger(f"call-{n}"), trace_id=f"T-{n}"):
+                expected[f"timed-{n}"] = (f"call-{n}", f"T-{n}", f"call-{n}")
+                await timed(f"timed-{n}")
+                expected[f"retried-{n}"] = (f"call-{n}", f"T-{n}", f"call-{n}")
+                await retried(f"retried-{n}")
     try:
         asyncio.run(main())
+        asyncio.run(through_helpers())
     except BaseException as e:  # noqa
         return [f"spawned-task logging program ended with {e!r}"]
     for tag, (lname, trace, scope) in expected.items():
